@@ -5,6 +5,7 @@ import (
 	"go/token"
 	"go/types"
 	"os"
+	"path/filepath"
 	"sort"
 	"strings"
 
@@ -21,16 +22,18 @@ type Engine struct {
 	CS         *Contracts
 	RepoDir    string
 
-	byPath   map[string]*packages.Package
-	layouts  map[types.Type][]comp
-	typeTags map[string]int
-	tagTypes map[int]types.Type
-	fieldIDs map[string]int
-	sentinels map[string]int
-	immut    map[*ssa.Global]bool
-	immutDone map[*ssa.Package]bool
-	funcsByKey map[string]*ssa.Function
-	implCache  map[string][]implMethod
+	byPath       map[string]*packages.Package
+	layouts      map[types.Type][]comp
+	typeTags     map[string]int
+	tagTypes     map[int]types.Type
+	fieldIDs     map[string]int
+	sentinels    map[string]int
+	immut        map[*ssa.Global]bool
+	neverWritten map[*ssa.Global]bool
+	modWrites    map[*ssa.Global]bool
+	immutDone    map[*ssa.Package]bool
+	funcsByKey   map[string]*ssa.Function
+	implCache    map[string][]implMethod
 }
 
 func Load(repoDir string, patterns []string, tags string) (*Engine, error) {
@@ -58,7 +61,7 @@ func Load(repoDir string, patterns []string, tags string) (*Engine, error) {
 	prog.Build()
 	en := &Engine{Fset: prog.Fset, Prog: prog, Pkgs: pkgs, RepoDir: repoDir, CS: NewContracts(),
 		byPath: map[string]*packages.Package{}, layouts: map[types.Type][]comp{}, typeTags: map[string]int{}, tagTypes: map[int]types.Type{},
-		fieldIDs: map[string]int{}, sentinels: map[string]int{}, immut: map[*ssa.Global]bool{}, immutDone: map[*ssa.Package]bool{},
+		fieldIDs: map[string]int{}, sentinels: map[string]int{}, immut: map[*ssa.Global]bool{}, neverWritten: map[*ssa.Global]bool{}, immutDone: map[*ssa.Package]bool{},
 		funcsByKey: map[string]*ssa.Function{}, implCache: map[string][]implMethod{}}
 	packages.Visit(pkgs, nil, func(p *packages.Package) { en.byPath[p.PkgPath] = p })
 	for _, p := range pkgs {
@@ -154,14 +157,29 @@ func (en *Engine) computeImmutable(pkg *ssa.Package) {
 	}
 	en.immutDone[pkg] = true
 	written := map[*ssa.Global]bool{}
+	initWritten := map[*ssa.Global]bool{}
 	var visit func(fn *ssa.Function)
 	visit = func(fn *ssa.Function) {
 		isInit := fn.Name() == "init" || strings.HasPrefix(fn.Name(), "init#")
 		for _, b := range fn.Blocks {
 			for _, in := range b.Instrs {
-				if s, ok := in.(*ssa.Store); ok && !isInit {
+				if s, ok := in.(*ssa.Store); ok {
 					if g, ok := s.Addr.(*ssa.Global); ok {
-						written[g] = true
+						if isInit {
+							initWritten[g] = true
+						} else {
+							written[g] = true
+						}
+					}
+				}
+				if isInit {
+					// any other use of the global's address inside init may initialise it
+					for _, op := range in.Operands(nil) {
+						if g, ok := (*op).(*ssa.Global); ok {
+							if _, isLoad := in.(*ssa.UnOp); !isLoad {
+								initWritten[g] = true
+							}
+						}
 					}
 				}
 				// address taken other than load/store
@@ -178,9 +196,7 @@ func (en *Engine) computeImmutable(pkg *ssa.Package) {
 									continue
 								}
 							}
-							if _, isErr := g.Type().(*types.Pointer).Elem().Underlying().(*types.Interface); isErr {
-								written[g] = true
-							}
+							written[g] = true
 						}
 					}
 				}
@@ -208,8 +224,73 @@ func (en *Engine) computeImmutable(pkg *ssa.Package) {
 	for _, m := range pkg.Members {
 		if g, ok := m.(*ssa.Global); ok && !written[g] {
 			en.immut[g] = true
+			if !initWritten[g] {
+				en.neverWritten[g] = true
+			}
 		}
 	}
+}
+
+// writtenAnywhere: some function of the module (outside the global's own package, which
+// computeImmutable covers) stores to the global or takes its address.
+func (en *Engine) writtenAnywhere(g *ssa.Global) bool {
+	if en.modWrites == nil {
+		en.modWrites = map[*ssa.Global]bool{}
+		for fn := range ssautil.AllFunctions(en.Prog) {
+			for _, b := range fn.Blocks {
+				for _, in := range b.Instrs {
+					for _, op := range in.Operands(nil) {
+						gl, ok := (*op).(*ssa.Global)
+						if !ok {
+							continue
+						}
+						if u, isLoad := in.(*ssa.UnOp); isLoad && u.Op == token.MUL {
+							continue
+						}
+						if fn.Pkg == gl.Pkg && (fn.Name() == "init" || strings.HasPrefix(fn.Name(), "init#")) {
+							continue
+						}
+						en.modWrites[gl] = true
+					}
+				}
+			}
+		}
+	}
+	if en.modWrites[g] {
+		return true
+	}
+	// packages of the module that are not loaded: textual scan for a qualified use of the
+	// global outside its own package directory (any such use counts as a possible write)
+	if !g.Object().Exported() {
+		return false
+	}
+	own := ""
+	if p, ok := en.byPath[g.Pkg.Pkg.Path()]; ok && len(p.GoFiles) > 0 {
+		own = filepath.Dir(p.GoFiles[0])
+	}
+	needle := g.Pkg.Pkg.Name() + "." + g.Name()
+	found := false
+	filepath.Walk(en.RepoDir, func(path string, info os.FileInfo, err error) error {
+		if err != nil || found {
+			return nil
+		}
+		if info.IsDir() {
+			if strings.HasPrefix(info.Name(), ".") && path != en.RepoDir {
+				return filepath.SkipDir
+			}
+			return nil
+		}
+		if !strings.HasSuffix(path, ".go") || filepath.Dir(path) == own {
+			return nil
+		}
+		b, err := os.ReadFile(path)
+		if err == nil && strings.Contains(string(b), needle) {
+			found = true
+		}
+		return nil
+	})
+	en.modWrites[g] = found
+	return found
 }
 
 func (en *Engine) isErrorSentinel(g *ssa.Global) bool {
@@ -272,13 +353,13 @@ func (en *Engine) FindFunc(key string) *ssa.Function {
 
 // FuncResult is the outcome of generating obligations for one function.
 type FuncResult struct {
-	Key      string
-	Obls     []*Obligation
-	Notes    []string
-	Trusted  []string
-	Err      string // tool/contract error: function not decided
-	ErrKind  string // "unsupported", "contract"
-	Props    []string
+	Key     string
+	Obls    []*Obligation
+	Notes   []string
+	Trusted []string
+	Err     string // tool/contract error: function not decided
+	ErrKind string // "unsupported", "contract"
+	Props   []string
 }
 
 // verifyLemma: a lemma has no code; its parameters are arbitrary well-formed values.
